@@ -17,6 +17,8 @@ HARNESS = os.path.join(VERIF, "lib", "xh", "c32_harness.py")
 PROPS = {"list_in_job_order": "list", "dict_keys_to_own_result": "dict", "generator_in_job_order": "generator",
          "generator_unordered_is_a_permutation": "generator_unordered"}
 TWINS = ["list_in_job_order_twin", "dict_keys_to_own_result_twin"]
+OPTIONAL = {"list_in_job_order_optional_results": "list", "dict_keys_to_own_result_optional_results": "dict"}
+PROPS.update(OPTIONAL)
 
 
 def run(args):
@@ -37,7 +39,7 @@ def run(args):
         for lo, hi in shards:
             # the unordered generator makes no order claim (multiset only); sorted() over symbolic
             # payloads is expensive, so it is explored for <= 4 jobs only
-            funcs = [f for f in PROPS if hi <= 4 or f != "generator_unordered_is_a_permutation"] + (TWINS if lo <= 3 else [])
+            funcs = [f for f in PROPS if (hi <= 4 or f != "generator_unordered_is_a_permutation") and (lo <= 3 or f not in OPTIONAL)] + (TWINS if lo <= 3 else [])
             futs.append((lo, hi, funcs, ex.submit(run_harness, HARNESS, funcs, timeout,
                                                    {"C32_MINJ": str(lo), "C32_MAXJ": str(hi)}, max(2, args.jobs // len(shards)))))
         for lo, hi, funcs, f in futs:
@@ -67,7 +69,7 @@ def run(args):
                 raise HarnessError(f"cannot parse counterexample: {r['detail']}")
             vals, perm, n_jobs = call
             # distinct payloads make a misplaced result visible in the replay
-            vals = [100 + i for i in range(len(vals))]
+            vals = [(None if v is None else 100 + i) for i, v in enumerate(vals)]
             from lib.xh.c32_replay import replay
             ok, out = replay(PROPS[name], vals, list(perm), int(n_jobs))
             stats.replays += 1
